@@ -372,7 +372,7 @@ class Engine:
             self.assign(s.target, s.value, st); return F()
         if isinstance(s, ast.AugAssign): self.augassign(s, st); return F()
         if isinstance(s, ast.Return):
-            v = self.expr(s.value, st) if s.value is not None else PNone()
+            v = self.expr(s.value, st, hint=self.spec.returns if not self.spec.generator else None) if s.value is not None else PNone()
             self.escape(st, v, 'return value') if False else None
             return [Outcome(st, 'return', v)]
         if isinstance(s, ast.Break): return [Outcome(st, 'break')]
